@@ -214,6 +214,7 @@ type op struct {
 
 type section struct {
 	ops       []op
+	failPre   bool // the failing attempts complete their body and are refused at pre-commit instead
 	failAfter int // -1: never; else abort after this many ops ...
 	failTimes int // ... this many times
 }
@@ -376,7 +377,8 @@ func (s *sys) generate() {
 			if w.Choose(sim.KFault, 3) == 0 {
 				sec.failAfter = w.Choose(sim.KFault, len(sec.ops)+1)
 				sec.failTimes = 1 + w.Choose(sim.KFault, 2)
-				fmt.Fprintf(&sb, "abort@%d x%d", sec.failAfter, sec.failTimes)
+				sec.failPre = w.Choose(sim.KFault, 3) == 0
+				fmt.Fprintf(&sb, "abort@%d x%d pre=%v", sec.failAfter, sec.failTimes, sec.failPre)
 			}
 			sb.WriteString("} ")
 			nd.prog = append(nd.prog, sec)
@@ -431,10 +433,19 @@ func addr(i int) string { return fmt.Sprintf("tr%d:5000", i) }
 
 type spyRes struct {
 	onCommit, onAbort func()
+	refuse            bool // refuse the next pre-commit (the body of the attempt has completed)
 }
 
 func (r *spyRes) Abort(distsys.ArchetypeInterface) chan struct{}   { r.onAbort(); return nil }
-func (r *spyRes) PreCommit(distsys.ArchetypeInterface) chan error  { return nil }
+func (r *spyRes) PreCommit(distsys.ArchetypeInterface) chan error {
+	if r.refuse {
+		r.refuse = false
+		ch := make(chan error, 1)
+		ch <- distsys.ErrCriticalSectionAborted
+		return ch
+	}
+	return nil
+}
 func (r *spyRes) Commit(distsys.ArchetypeInterface) chan struct{}  { r.onCommit(); return nil }
 func (r *spyRes) ReadValue(distsys.ArchetypeInterface) (tla.Value, error) {
 	return tla.MakeNumber(0), nil
@@ -533,6 +544,14 @@ func (s *sys) runNode(nd *node) {
 				return err
 			}
 			failNow := sec.failAfter >= 0 && nd.tries[j] < sec.failTimes
+			if failNow && sec.failPre {
+				// this attempt runs to the end of its body; a resource refuses the pre-commit
+				nd.tries[j]++
+				failNow = false
+				sp.refuse = true
+				w.Fault("precommit_refused")
+				w.Probe("attempt_refused_at_precommit")
+			}
 			sentInAttempt := false
 			for k, o := range sec.ops {
 				if failNow && k == sec.failAfter {
